@@ -952,7 +952,7 @@ func (c *compiler) evalCallExpression(node *ast.CallExpression) (interface{}, er
 			for k, v := range octx.data {
 				c.ctx.Set(k, v)
 			}
-			c.ctx.Set(node.Function.String(), res[0].Interface())
+			c.ctx.Set(calleeRootName(node.ChainCallee, node.Function.String()), res[0].Interface())
 			vvs, err := c.evalExpression(node.ChainCallee)
 			if err != nil {
 				return nil, err
@@ -1196,30 +1196,8 @@ func (c *compiler) evalIndexCallee(rv reflect.Value, node *ast.IndexExpression) 
 	//For example, if this is a nested object person.Name[0]
 	//then we can set the value of Name[0] to person.Name
 	//As the evalIdent will look for that object by person.Name
-	//If key doesn't contain "." this means we got person[0].Name[0]
-	//If key does contain "." then indexed field that needs to be accessed will be set in Node.left and Node.Callee
-	key := node.Left.String()
-	if strings.Contains(key, ".") {
-		ggg := strings.Split(key, ".")
-		callee := node.Callee.String()
-
-		if !strings.Contains(callee, key) {
-			for {
-				if len(ggg) >= 2 {
-					ggg = ggg[1:]
-				} else {
-					key = ggg[0]
-					break
-				}
-
-				if strings.Contains(callee, strings.Join(ggg, ".")) {
-					key = strings.Join(ggg, ".")
-					break
-				}
-			}
-		}
-	}
-
+	//That name is the one the parser put at the root of the callee chain (assignCallee)
+	key := calleeRootName(node.Callee, node.Left.String())
 	c.ctx.Set(key, rv.Interface())
 
 	vvs, err := c.evalExpression(node.Callee)
@@ -1235,4 +1213,24 @@ func unsafeGetBytes(s string) []byte {
 		return []byte{}
 	}
 	return unsafe.Slice(unsafe.StringData(s), len(s))
+}
+
+// calleeRootName returns the name at the root of a callee chain built by the parser's assignCallee
+// (the spelling of what stands left of the "."), or def if e has no such root.
+func calleeRootName(e ast.Expression, def string) string {
+	switch t := e.(type) {
+	case *ast.Identifier:
+		for t.Callee != nil {
+			t = t.Callee
+		}
+		return t.Value
+	case *ast.IndexExpression:
+		return calleeRootName(t.Left, def)
+	case *ast.CallExpression:
+		if t.Callee != nil {
+			return calleeRootName(t.Callee, def)
+		}
+		return calleeRootName(t.Function, def)
+	}
+	return def
 }
